@@ -78,7 +78,7 @@ pub fn silence_panics() {
 /// Result record of a replay run, printed as the last stdout line of an adapter.
 pub fn summary(kind: &str, n: usize, steps: usize, failures: &[Value], extra: Value) {
     let v = json!({"summary": kind, "behaviours": n, "steps": steps,
-                   "failures": failures.len(), "first_failures": failures.iter().take(5).collect::<Vec<_>>(),
+                   "failures": failures.len(), "first_failures": failures.iter().take(40).collect::<Vec<_>>(),
                    "extra": extra});
     println!("{}", v);
 }
